@@ -173,15 +173,15 @@ Qed.
 (* ------------------------------------------------------------------ the scan side *)
 
 Definition curof (s : scanner) : list row := match s_cur s with Some r => r | None => [] end.
-Definition segrows (S : list (list row)) (f : list nat) : list row := concat (map (fun i => nth i S []) f).
+Definition segrows (SG : list (list row)) (f : list nat) : list row := concat (map (fun i => nth i SG []) f).
 
-Record scan_inv (S : list (list row)) (c : coll) : Prop := {
-  si_segs : segs c = S;
+Record scan_inv (SG : list (list row)) (c : coll) : Prop := {
+  si_segs : segs c = SG;
   si_fin : forallb a_fin (apps c) = true;
   si_idx : forall i, cntn i (fetched c) + cntn i (map s_next (scans c)) = if i <? counter c then 1 else 0;
-  si_rows : forall r, cnt r (scan_output c) + cnt r (cur_rows c) = cnt r (segrows S (fetched c));
-  si_lt : Forall (fun i => i < length S) (fetched c);
-  si_done : Forall (fun s => s_done s = true -> s_cur s = None /\ length S <= s_next s) (scans c)
+  si_rows : forall r, cnt r (scan_output c) + cnt r (cur_rows c) = cnt r (segrows SG (fetched c));
+  si_lt : Forall (fun i => i < length SG) (fetched c);
+  si_done : Forall (fun s => s_done s = true -> s_cur s = None /\ length SG <= s_next s) (scans c)
 }.
 
 Lemma out_of_push : forall s b nx cu dn,
@@ -203,14 +203,28 @@ Qed.
 Lemma cntn_cons : forall i x l, cntn i (x :: l) = (if Nat.eq_dec x i then 1 else 0) + cntn i l.
 Proof. intros. unfold cntn. cbn. destruct (Nat.eq_dec x i); reflexivity. Qed.
 
-Lemma do_scan_inv : forall k S c j c', scan_inv S c -> do_scan k c j = Some c' -> scan_inv S c'.
+Lemma idx_step : forall (F A B : nat -> nat) nx cn,
+  (forall i, F i + (A i + ((if Nat.eq_dec nx i then 1 else 0) + B i)) = if i <? cn then 1 else 0) ->
+  forall i, (if Nat.eq_dec nx i then 1 else 0) + F i + (A i + ((if Nat.eq_dec cn i then 1 else 0) + B i)) =
+            if i <? S cn then 1 else 0.
 Proof.
-  intros k S c j c' I H. destruct I. unfold do_scan in H.
+  intros F A B nx cn H i. pose proof (H i) as Hi. pose proof (H cn) as Hc.
+  destruct (Nat.ltb_spec cn cn) as [X|X]; [lia|].
+  destruct (Nat.eq_dec nx cn) as [E3|E3]; [lia|].
+  destruct (Nat.eq_dec cn i) as [E2|E2].
+  - subst i. destruct (Nat.eq_dec nx cn) as [E1|E1]; [lia|].
+    destruct (Nat.ltb_spec cn (S cn)); lia.
+  - destruct (Nat.eq_dec nx i) as [E1|E1]; destruct (Nat.ltb_spec i cn); destruct (Nat.ltb_spec i (S cn)); lia.
+Qed.
+
+Lemma do_scan_inv : forall k SG c j c', scan_inv SG c -> do_scan k c j = Some c' -> scan_inv SG c'.
+Proof.
+  intros k SG c j c' I H. destruct I. unfold do_scan in H.
   destruct (nth_error (scans c) j) as [s|] eqn:Hn; [|discriminate].
   destruct (s_done s) eqn:Hd; [discriminate|].
   destruct (replace_split _ _ _ _ Hn) as (l1 & l2 & Hl & Hrep).
   assert (Hemit : forall rem, curof s = rem -> (s_cur s = Some rem /\ rem <> []) ->
-     scan_inv S {| segs := segs c; counter := counter c; apps := apps c; fetched := fetched c;
+     scan_inv SG {| segs := segs c; counter := counter c; apps := apps c; fetched := fetched c;
               scans := replace j {| s_next := s_next s; s_cur := Some (skipn (cap k) rem); s_done := false;
                                     s_out := firstn (cap k) rem :: s_out s |} (scans c) |}).
   { intros rem Hcur _. rewrite Hrep.
@@ -225,25 +239,17 @@ Proof.
     + (* end of the current segment: fetch *)
       destruct (nth_error (segs c) (s_next s)) as [seg|] eqn:Hseg.
       * inversion H; subst c'; clear H. rewrite Hrep.
-        assert (Hlt : s_next s < length S).
+        assert (Hlt : s_next s < length SG).
         { rewrite <- si_segs0. apply nth_error_Some. congruence. }
         constructor; cbn [segs counter apps fetched scans]; auto.
-        -- intros i. pose proof (si_idx0 i) as Hi. pose proof (si_idx0 (counter c)) as Hc.
-           rewrite Nat.ltb_irrefl in Hc.
-           rewrite Hl in Hi, Hc. rewrite !map_app in Hi, Hc. cbn [map] in Hi, Hc.
-           rewrite !cntn_app in Hi, Hc. rewrite !cntn_cons in Hi, Hc.
-           rewrite !map_app. cbn [map s_next]. rewrite !cntn_app, !cntn_cons.
-           destruct (Nat.eq_dec (s_next s) i) as [E1|E1]; destruct (Nat.eq_dec (counter c) i) as [E2|E2];
-             destruct (Nat.eq_dec (s_next s) (counter c)) as [E3|E3];
-             destruct (i <? counter c) eqn:L1; destruct (i <? S (counter c)) eqn:L2;
-             try (apply Nat.ltb_lt in L1); try (apply Nat.ltb_ge in L1);
-             try (apply Nat.ltb_lt in L2); try (apply Nat.ltb_ge in L2); subst; try lia.
+        -- intros i. rewrite !map_app. cbn [map s_next]. rewrite !cntn_app, !cntn_cons.
+           apply (idx_step (fun i => cntn i (fetched c)) (fun i => cntn i (map s_next l1)) (fun i => cntn i (map s_next l2))).
+           intros i0. rewrite <- (si_idx0 i0). rewrite Hl. rewrite !map_app. cbn [map]. rewrite !cntn_app, !cntn_cons. reflexivity.
         -- intros r. pose proof (si_rows0 r) as Hr. unfold scan_output, cur_rows in *. cbn [scans].
            rewrite Hl in Hr. rewrite !concat_map_mid in *. rewrite out_of_push. rewrite Hcur in Hr.
            cbn [s_cur]. unfold segrows in *. cbn [map concat].
            rewrite (nth_error_nth _ _ [] (eq_trans (f_equal (fun z => nth_error z (s_next s)) (eq_sym si_segs0)) Hseg)).
            rewrite !cnt_app in *. rewrite <- (firstn_skipn (cap k) seg) at 3. rewrite cnt_app. cbn in Hr. lia.
-        -- constructor; assumption.
         -- rewrite Hl in si_done0. eapply Forall_mid; [exact si_done0|]. cbn. intros Hc; discriminate.
       * inversion H; subst c'; clear H. rewrite Hrep.
         constructor; cbn [segs counter apps fetched scans]; auto.
@@ -256,25 +262,17 @@ Proof.
       split; [reflexivity|discriminate].
   - destruct (nth_error (segs c) (s_next s)) as [seg|] eqn:Hseg.
     + inversion H; subst c'; clear H. rewrite Hrep.
-      assert (Hlt : s_next s < length S).
+      assert (Hlt : s_next s < length SG).
       { rewrite <- si_segs0. apply nth_error_Some. congruence. }
       constructor; cbn [segs counter apps fetched scans]; auto.
-      * intros i. pose proof (si_idx0 i) as Hi. pose proof (si_idx0 (counter c)) as Hc.
-        rewrite Nat.ltb_irrefl in Hc.
-        rewrite Hl in Hi, Hc. rewrite !map_app in Hi, Hc. cbn [map] in Hi, Hc.
-        rewrite !cntn_app in Hi, Hc. rewrite !cntn_cons in Hi, Hc.
-        rewrite !map_app. cbn [map s_next]. rewrite !cntn_app, !cntn_cons.
-        destruct (Nat.eq_dec (s_next s) i) as [E1|E1]; destruct (Nat.eq_dec (counter c) i) as [E2|E2];
-          destruct (Nat.eq_dec (s_next s) (counter c)) as [E3|E3];
-          destruct (i <? counter c) eqn:L1; destruct (i <? S (counter c)) eqn:L2;
-          try (apply Nat.ltb_lt in L1); try (apply Nat.ltb_ge in L1);
-          try (apply Nat.ltb_lt in L2); try (apply Nat.ltb_ge in L2); subst; try lia.
+      * intros i. rewrite !map_app. cbn [map s_next]. rewrite !cntn_app, !cntn_cons.
+        apply (idx_step (fun i => cntn i (fetched c)) (fun i => cntn i (map s_next l1)) (fun i => cntn i (map s_next l2))).
+        intros i0. rewrite <- (si_idx0 i0). rewrite Hl. rewrite !map_app. cbn [map]. rewrite !cntn_app, !cntn_cons. reflexivity.
       * intros r. pose proof (si_rows0 r) as Hr. unfold scan_output, cur_rows in *. cbn [scans].
         rewrite Hl in Hr. rewrite !concat_map_mid in *. rewrite out_of_push. rewrite Hcur in Hr.
         cbn [s_cur]. unfold segrows in *. cbn [map concat].
         rewrite (nth_error_nth _ _ [] (eq_trans (f_equal (fun z => nth_error z (s_next s)) (eq_sym si_segs0)) Hseg)).
         rewrite !cnt_app in *. rewrite <- (firstn_skipn (cap k) seg) at 3. rewrite cnt_app. cbn in Hr. lia.
-      * constructor; assumption.
       * rewrite Hl in si_done0. eapply Forall_mid; [exact si_done0|]. cbn. intros Hc; discriminate.
     + inversion H; subst c'; clear H. rewrite Hrep.
       constructor; cbn [segs counter apps fetched scans]; auto.
@@ -296,10 +294,10 @@ Proof.
   - destruct (nth_error (segs c) (s_next s)); inversion H; subst; cbn [scans]; rewrite Hrep, Hl, !app_length; reflexivity.
 Qed.
 
-Lemma step_scan_inv : forall k S c l c',
-  scan_inv S c -> step k c l = Some c' -> scan_inv S c' /\ length (scans c') = length (scans c).
+Lemma step_scan_inv : forall k SG c l c',
+  scan_inv SG c -> step k c l = Some c' -> scan_inv SG c' /\ length (scans c') = length (scans c).
 Proof.
-  intros k S c l c' I H. destruct l as [i b|i|j|j]; cbn [step] in H.
+  intros k SG c l c' I H. destruct l as [i b|i|j|j]; cbn [step] in H.
   - rewrite finalized_no_append in H by (destruct I; assumption). discriminate.
   - rewrite finalized_no_finalize in H by (destruct I; assumption). discriminate.
   - split; [eapply do_scan_inv; eassumption|eapply do_scan_length; eassumption].
@@ -311,10 +309,10 @@ Proof.
     + rewrite finalized_no_append in H by (destruct I1; assumption). discriminate.
 Qed.
 
-Lemma run_scan_inv : forall k S ls c c',
-  scan_inv S c -> run k c ls = Some c' -> scan_inv S c' /\ length (scans c') = length (scans c).
+Lemma run_scan_inv : forall k SG ls c c',
+  scan_inv SG c -> run k c ls = Some c' -> scan_inv SG c' /\ length (scans c') = length (scans c).
 Proof.
-  intros k S ls. induction ls as [|l ls IH]; intros c c' I H; cbn [run] in H.
+  intros k SG ls. induction ls as [|l ls IH]; intros c c' I H; cbn [run] in H.
   - inversion H; subst. split; [assumption|reflexivity].
   - destruct (step k c l) as [c1|] eqn:Hst; [|discriminate].
     destruct (step_scan_inv _ _ _ _ _ I Hst) as [I1 L1].
@@ -324,13 +322,11 @@ Qed.
 Lemma cntn_seq : forall n st i, cntn i (seq st n) = if (st <=? i) && (i <? st + n) then 1 else 0.
 Proof.
   induction n as [|n IH]; intros st i; cbn [seq].
-  - cbn. destruct (st <=? i) eqn:A; destruct (i <? st + 0) eqn:B; cbn; try reflexivity.
-    apply Nat.leb_le in A. apply Nat.ltb_lt in B. lia.
+  - unfold cntn; cbn [count_occ].
+    destruct (Nat.leb_spec st i); destruct (Nat.ltb_spec i (st + 0)); cbn [andb]; try reflexivity; lia.
   - rewrite cntn_cons, IH.
-    destruct (Nat.eq_dec st i) as [E|E]; destruct (S st <=? i) eqn:A; destruct (i <? S st + n) eqn:B;
-      destruct (st <=? i) eqn:C; destruct (i <? st + S n) eqn:D; cbn;
-      try apply Nat.leb_le in A; try apply Nat.leb_gt in A; try apply Nat.ltb_lt in B; try apply Nat.ltb_ge in B;
-      try apply Nat.leb_le in C; try apply Nat.leb_gt in C; try apply Nat.ltb_lt in D; try apply Nat.ltb_ge in D; lia.
+    destruct (Nat.eq_dec st i); destruct (Nat.leb_spec (S st) i); destruct (Nat.ltb_spec i (S st + n));
+      destruct (Nat.leb_spec st i); destruct (Nat.ltb_spec i (st + S n)); cbn [andb]; lia.
 Qed.
 
 Lemma start_scan_inv : forall p c,
@@ -340,10 +336,10 @@ Proof.
   - intros i. rewrite map_map. cbn [fresh_scan s_next]. rewrite map_id. rewrite cntn_seq. cbn.
     reflexivity.
   - intros r. unfold scan_output, cur_rows, segrows. cbn [scans map concat].
-    assert (E1 : concat (map out_of (map fresh_scan (seq 0 p))) = []).
-    { induction (seq 0 p) as [|x l IH]; cbn; [reflexivity|exact IH]. }
-    assert (E2 : concat (map (fun s => match s_cur s with Some r0 => r0 | None => [] end) (map fresh_scan (seq 0 p))) = []).
-    { induction (seq 0 p) as [|x l IH]; cbn; [reflexivity|exact IH]. }
+    assert (E1 : forall l, concat (map out_of (map fresh_scan l)) = []).
+    { intros l. induction l as [|x l IH]; cbn; [reflexivity|exact IH]. }
+    assert (E2 : forall l, concat (map (fun s => match s_cur s with Some r0 => r0 | None => [] end) (map fresh_scan l)) = []).
+    { intros l. induction l as [|x l IH]; cbn; [reflexivity|exact IH]. }
     rewrite E1, E2. reflexivity.
   - apply Forall_forall. intros s Hin. apply in_map_iff in Hin. destruct Hin as (x & <- & _). cbn. intros Hc; discriminate.
 Qed.
@@ -383,13 +379,13 @@ Proof.
   rewrite app_length in IH. cbn [length] in IH. rewrite Nat.add_1_r in IH. exact IH.
 Qed.
 
-Lemma done_scanners : forall S l,
-  Forall (fun s => s_done s = true -> s_cur s = None /\ length S <= s_next s) l ->
+Lemma done_scanners : forall (SG : list (list row)) l,
+  Forall (fun s => s_done s = true -> s_cur s = None /\ length SG <= s_next s) l ->
   forallb s_done l = true ->
-  Forall (fun x => length S <= x) (map s_next l) /\
+  Forall (fun x => length SG <= x) (map s_next l) /\
   concat (map (fun s => match s_cur s with Some r => r | None => [] end) l) = [].
 Proof.
-  intros S l HF. induction HF as [|s l Hs HF IH]; cbn; intros Hb; [split; constructor|].
+  intros SG l HF. induction HF as [|s l Hs HF IH]; cbn; intros Hb; [split; constructor|].
   apply andb_true_iff in Hb. destruct Hb as [H1 H2]. destruct (Hs H1) as [Hc Hn]. destruct (IH H2) as [I1 I2].
   split; [constructor; assumption|]. rewrite Hc. cbn. exact I2.
 Qed.
@@ -440,13 +436,13 @@ Theorem append_scan_exactly_once_proof : forall k sg n ls1 c1 p ls2 c2,
 Proof.
   intros k sg n ls1 c1 p ls2 c2 H1 Hf Hp H2 Hd.
   destruct (writers_fresh sg n) as (W1 & W2 & W3).
-  destruct (writer_run k ls1 _ _ eq_refl H1) as (R1 & R2 & R3 & R4).
+  destruct (writer_run k ls1 (writers sg n) c1 eq_refl H1) as (R1 & R2 & R3 & R4).
   eapply Permutation_trans; [eapply full_scan_exactly_once; eassumption|].
   apply (Permutation_count_occ N.eq_dec). intros r.
   fold (cnt r (all_rows c1)). fold (cnt r (concat sg ++ appended ls1)).
   pose proof (R1 r) as E. rewrite W2 in E. unfold buf_rows in E.
-  rewrite (finalized_buf_empty _ (R4 W1) Hf) in E. cbn in E. rewrite cnt_app.
-  unfold all_rows in E at 2. cbn [writers segs] in E. lia.
+  rewrite (finalized_buf_empty _ (R4 W1) Hf) in E. rewrite cnt_app.
+  change (all_rows (writers sg n)) with (concat sg) in E. rewrite cnt_nil in E. lia.
 Qed.
 
 Theorem insert_count_proof : forall k sg n ls c,
@@ -454,7 +450,7 @@ Theorem insert_count_proof : forall k sg n ls c,
 Proof.
   intros k sg n ls c H.
   destruct (writers_fresh sg n) as (W1 & W2 & W3).
-  destruct (writer_run k ls _ _ eq_refl H) as (R1 & R2 & R3 & R4). rewrite R2, W3. reflexivity.
+  destruct (writer_run k ls (writers sg n) c eq_refl H) as (R1 & R2 & R3 & R4). rewrite R2, W3. reflexivity.
 Qed.
 
 (* satisfiability of the hypotheses of the two theorems above *)
@@ -462,11 +458,11 @@ Example exactly_once_hypotheses_satisfiable :
   exists ls1 c1 ls2 c2,
     run {| segsz := 2; cap := 1 |} (writers [] 2) ls1 = Some c1 /\ all_finalized c1 = true /\
     run {| segsz := 2; cap := 1 |} (start_scan 2 c1) ls2 = Some c2 /\ all_done c2 = true /\
-    scan_output c2 = [1; 2; 5; 3; 4]%N.
+    scan_output c2 = [3; 4; 1; 2; 5]%N.
 Proof.
   exists [LAppend 0 [1%N]; LAppend 1 [3%N; 4%N]; LAppend 0 [2%N]; LAppend 0 [5%N]; LFinalize 1; LFinalize 0].
   eexists.
-  exists [LScan 1; LScan 0; LScan 1; LScan 0; LScan 0; LScan 0; LScan 1; LScan 0; LScan 1].
+  exists [LScan 1; LScan 0; LScan 1; LScan 0; LScan 0; LScan 1; LScan 1].
   eexists.
   vm_compute. repeat split; reflexivity.
 Qed.
